@@ -18,6 +18,16 @@ def T(quick, thorough, floor=200, **kw):
 
 
 PROPS = {
+    "C04": T(700, 18000, sites=["matrix_grow_overlapping", "matrix_grow_nonoverlapping", "matrix_id_reused", "matrix_id_fresh"],
+             t={"legs": ["debug", "release", "asan", "miri"], "asan_cases_per_shard": 2000, "miri_cases_per_shard": 3},
+             rule="operation histories on MatrixGraph<u32,i32,_,Ty,Null,Ix> (directed/undirected x Option/NotZero x u8/u16/u32/usize; "
+                  "30-700 ops between existing nodes: add_node/try_add_node, add_edge, update_edge, try_update_edge, add_or_update_edge, "
+                  "remove_node, remove_edge/try_remove_edge in either orientation, weight updates, clear, extend_with_edges); half of "
+                  "the histories are growth runs from new()/with_capacity(0..70) up to 10-70 nodes that keep adding edges into freshly "
+                  "grown regions (both row-move branches counted by hooks); 1/12 of the u8 histories run into the node limit; against a "
+                  "simple-graph model keyed by node id; sweeps of every query + raw storage (occupied cells == model edges, nb_edges, "
+                  "removed ids) after every op (<=14 nodes) or every 12th; non-trivial = >=10 ops, >=1 node removal, >=3 nodes at the "
+                  "end; distinct = hash of (type config, op-kind sequence, final edge set)"),
     "C03": T(600, 15000,
              rule="operation histories on GraphMap<N,u32,Ty,S> (N in i32 incl. negatives/extremes, (u8,u8), &str; directed/undirected; "
                   "hashers RandomState, Fx and an all-keys-collide hasher; 20-300 ops: add_node, add_edge/Build::add_edge/update_edge "
